@@ -142,7 +142,16 @@ func runC13(c *Ctx) {
 			// writers: the notification happens under the order mutex
 			if recvT := recvTypeName(fd); recvT == "variable" || recvT == "set" || recvT == "derivedSet" {
 				hasOrder := false
-				for k, m := range heldAt[inv] {
+				heldHere := heldAt[inv]
+				// an Invoke inside an expanded helper runs under whatever the analysed function
+				// holds at the (outermost) helper call
+				if reg := f.regionOf[pt.B]; reg != nil {
+					for reg.parent != nil {
+						reg = reg.parent
+					}
+					heldHere = heldAt[reg.call]
+				}
+				for k, m := range heldHere {
 					if m == ModeW && (strings.HasSuffix(k, ".updateOrderMutex") || strings.HasSuffix(k, ".mutex")) && !strings.Contains(k, "readableSet") {
 						hasOrder = true
 					}
@@ -150,7 +159,7 @@ func runC13(c *Ctx) {
 				if hasOrder {
 					r.Pass("writer/notify-under-order-mutex", key, p.posStr(inv.Pos()), "notification loop runs inside the update-order critical section")
 				} else {
-					r.Fail("writer/notify-under-order-mutex", key, p.posStr(inv.Pos()), fmt.Sprintf("subscribers are notified outside the update-order mutex (held: %s): two writers can deliver their updates in different orders to different subscribers", heldAt[inv]))
+					r.Fail("writer/notify-under-order-mutex", key, p.posStr(inv.Pos()), fmt.Sprintf("subscribers are notified outside the update-order mutex (held: %s): two writers can deliver their updates in different orders to different subscribers", heldHere))
 				}
 			}
 		}
@@ -316,6 +325,12 @@ func checkReactiveRegistration(r *Reporter, p *Prog, pkg, typ string) {
 						inLit = true
 					}
 				}
+				ast.Inspect(fd.Body, func(m ast.Node) bool {
+					if l, ok := m.(*ast.FuncLit); ok && l.Pos() <= cl.Pos() && cl.End() <= l.End() {
+						inLit = true // lexically inside a closure (e.g. the returned unsubscribe function)
+					}
+					return !inLit
+				})
 				if sel := info.Selections[se]; sel != nil && sel.Kind() == types.MethodVal && !inLit {
 					nSnapshot++
 					if held[recvPath+"."+mutexName] < ModeW {
@@ -356,19 +371,24 @@ func checkReactiveRegistration(r *Reporter, p *Prog, pkg, typ string) {
 	}
 	okRemove, okMark := false, false
 	if ret != nil {
-		ast.Inspect(ret.Body, func(n ast.Node) bool {
-			cl, ok := n.(*ast.CallExpr)
-			if !ok {
-				return true
+		// the unsubscribe function, with a named helper it may delegate to expanded in place
+		uf := newFuncCFG(p, info, ret.Body, key+"$unsubscribe")
+		for _, cl := range uf.Calls(func(*ast.CallExpr) bool { return true }) {
+			pt, okp := uf.PointOf(cl)
+			if !okp {
+				continue
 			}
-			if strings.HasSuffix(exprKey(cl.Fun), "Callbacks.Remove") && len(cl.Args) == 1 && objOfIdent(info, cl.Args[0]) == elemVar {
-				okRemove = true
+			if strings.HasSuffix(exprKey(cl.Fun), "Callbacks.Remove") && len(cl.Args) == 1 {
+				if uf.IsVar(cl.Args[0], pt, elemVar) {
+					okRemove = true
+				}
 			}
-			if x, ok := reactiveCalleeIs(info, cl, "MarkUnsubscribed"); ok && objOfIdent(info, x) == cbVar {
-				okMark = true
+			if x, ok := reactiveCalleeIs(info, cl, "MarkUnsubscribed"); ok {
+				if uf.IsVar(x, pt, cbVar) {
+					okMark = true
+				}
 			}
-			return true
-		})
+		}
 	}
 	if okRemove && okMark {
 		r.Pass("unsub/remove-own-and-mark", key, p.posStr(fd.Pos()), "unsubscribe removes the list element created by this registration and marks this callback")
@@ -466,7 +486,34 @@ func checkLockExecutionContract(r *Reporter, p *Prog) {
 		}
 		return true
 	})
-	okCond := cond == "(c.unsubscribed||((updateID!=0)&&(updateID==c.lastUpdate)))"
+	// truth table of the skip decision over its three atoms, whatever its spelling: the lock is
+	// granted (return true) exactly when the callback is not unsubscribed and the update is not
+	// one it has already received (a zero id is never "already received")
+	okCond := true
+	{
+		recvName := fd.Recv.List[0].Names[0].Name
+		params := paramObjs(info, fd)
+		idName := "updateID"
+		if len(params) > 0 && params[0] != nil {
+			idName = params[0].Name()
+		}
+		for _, unsub := range []bool{false, true} {
+			for _, zero := range []bool{false, true} {
+				for _, same := range []bool{false, true} {
+					got := f.ReturnsUnder(map[string]bool{
+						recvName + ".unsubscribed":                           unsub,
+						Rel{"0", "==", idName}.String():                      zero,
+						Rel{recvName + ".lastUpdate", "==", idName}.String(): same,
+					})
+					wantTrue := !unsub && !(!zero && same)
+					if got["true"] != wantTrue || got["false"] == wantTrue {
+						okCond = false
+						cond = fmt.Sprintf("unsubscribed=%v id==0:%v id==lastUpdate:%v returns %v", unsub, zero, same, got)
+					}
+				}
+			}
+		}
+	}
 	// return false only after Unlock; return true only while holding and after recording the id
 	isUnlock := func(n ast.Node) bool {
 		cl, ok := n.(*ast.CallExpr)
